@@ -163,6 +163,20 @@ Theorem C17xb_model_ok : forall c ops fl,
   ok_C17xn c (force_err_obs fl (run_C17xn c ops)) = true.
 Proof. exact C17xb_model_ok_lemma. Qed.
 
+(* suite C17xenchain: the chain model satisfies the chain checker ok_C17c on ALL chains - any region kind, size and guest
+   base (the bounds of C17x_model_ok), any root, any list of derivations of any length with any operands (accepted, refused
+   and panicking ones), any final access, both build profiles.  "Model geometry = spec geometry": by induction over the
+   chain the transcribed derivations designate exactly the bytes the documented meaning of the methods gives (and stay
+   inside the region), a panicking derivation is one the documentation leaves undefined; with C17_handle_propagates the
+   final access is then the guarded one-operation history of C17xn_model_ok *)
+Theorem C17c_model_ok : forall c r l f,
+  (cc_rkind c < 4 /\ 0 < cc_page c /\ cc_gbase c mod cc_page c = 0 /\
+   cc_gbase c + cc_size c + cc_page c <= 4294967296 * cc_page c /\
+   cc_gbase c + cc_size c + cc_page c < 9223372036854775808) ->
+  root_of (cc_root c) = Some r -> map_opt step_of (cc_steps c) = Some l -> final_of (cc_final c) = Some f ->
+  ok_C17c c (run_C17c c r l f) = true.
+Proof. exact C17c_model_ok_lemma. Qed.
+
 Print Assumptions C17_model_ok.
 Print Assumptions C17x_model_ok.
 Print Assumptions C17_guard_len_bytes.
@@ -178,3 +192,4 @@ Print Assumptions C17_chain_guarded.
 Print Assumptions C17xn_model_ok.
 Print Assumptions C17_grant_refs_loop.
 Print Assumptions C17xb_model_ok.
+Print Assumptions C17c_model_ok.
